@@ -283,6 +283,21 @@ pub fn gen_driver(prop: &str, rng: &mut Rng, sh: &mut Shards, out: &str, thoroug
                 let len = match rng.below(4) { 0 => rng.below(6) as usize, 1 => 10 + rng.below(30) as usize, _ => 300 };
                 let end = rng.below(4);
                 p.stdin = rand_script(rng, len, end);
+                // one program in five also reads input through INT 21h (01h and 0Ah): prompt and services then take
+                // turns on the same input, whatever the next line is
+                if i % 5 == 4 {
+                    let pos = p.items.iter().position(|x| matches!(x, Item::Label(n) if n == "start")).unwrap() + 1;
+                    let rest = p.items.split_off(pos);
+                    p.items.push(Item::Ins(Ins::Mov { w: 16, dst: Opnd::Reg16("ax"), src: Opnd::Imm(0x0100) }));
+                    p.items.push(Item::Ins(Ins::Int { n: 0x21 }));
+                    p.items.push(Item::Ins(Ins::Mov { w: 16, dst: Opnd::Reg16("dx"), src: Opnd::Imm(0x4000) }));
+                    p.items.push(Item::Ins(Ins::Mov { w: 16, dst: Opnd::Reg16("bx"), src: Opnd::Reg16("dx") }));
+                    p.items.push(Item::Ins(Ins::Mov { w: 8, dst: Opnd::Mem { seg: "", base: "bx", index: "", disp: 0, has_disp: false }, src: Opnd::Imm(6) }));
+                    p.items.push(Item::Ins(Ins::Mov { w: 16, dst: Opnd::Reg16("ax"), src: Opnd::Imm(0x0A00) }));
+                    p.items.push(Item::Ins(Ins::Int { n: 0x21 }));
+                    p.items.push(Item::Ins(Ins::Print { what: PrintWhat::Range(0x4000, 0x4008) }));
+                    p.items.extend(rest);
+                }
                 progs.push((p, Layout::random(rng)));
             }
         }
